@@ -130,6 +130,31 @@ def trimRightSpace (s : Bytes) : Bytes := (dropSpaces spaceAtHeadRev s.length s.
 /-- `strings.TrimSpace`. -/
 def trimSpace (s : Bytes) : Bytes := trimRightSpace (trimLeftSpace s)
 
+/-- is the byte string well-formed UTF-8 (as `utf8.ValidString`)? -/
+def validUTF8 : Bytes → Bool
+  | [] => true
+  | b :: t =>
+    if b < 0x80 then validUTF8 t
+    else if 0xC2 ≤ b ∧ b ≤ 0xDF then
+      match t with
+      | c1 :: t' => (0x80 ≤ c1 && c1 ≤ 0xBF) && validUTF8 t'
+      | _ => false
+    else if 0xE0 ≤ b ∧ b ≤ 0xEF then
+      match t with
+      | c1 :: c2 :: t' =>
+        let lo := if b = 0xE0 then 0xA0 else 0x80
+        let hi := if b = 0xED then 0x9F else 0xBF
+        (lo ≤ c1 && c1 ≤ hi) && (0x80 ≤ c2 && c2 ≤ 0xBF) && validUTF8 t'
+      | _ => false
+    else if 0xF0 ≤ b ∧ b ≤ 0xF4 then
+      match t with
+      | c1 :: c2 :: c3 :: t' =>
+        let lo := if b = 0xF0 then 0x90 else 0x80
+        let hi := if b = 0xF4 then 0x8F else 0xBF
+        (lo ≤ c1 && c1 ≤ hi) && (0x80 ≤ c2 && c2 ≤ 0xBF) && (0x80 ≤ c3 && c3 ≤ 0xBF) && validUTF8 t'
+      | _ => false
+    else false
+
 /-- ASCII upper-casing, as `strings.ToUpper` does on ASCII input. -/
 def toUpper (s : Bytes) : Bytes := s.map fun b => if 97 ≤ b ∧ b ≤ 122 then b - 32 else b
 
